@@ -263,7 +263,7 @@ Proof.
     destruct l as [| u n | ws]; cbn [lv_scal lvl_vols].
     + rewrite !map_map. apply map_ext_in. intros. apply IH. auto.
     + cbn [map]. f_equal. rewrite tscale_treduce. f_equal.
-      rewrite map2_repeat by (rewrite map_length; lia).
+      simpl in Hl0. rewrite map2_repeat by (rewrite map_length; lia).
       rewrite !map_map. apply map_ext_in. intros x Hx.
       rewrite <- (IH x Hx). rewrite tscale_tscale. reflexivity.
     + cbn [map]. f_equal. rewrite tscale_treduce. f_equal.
